@@ -1,3 +1,179 @@
+/-
+C17 - property theorems: axis-wise selection and missing-value handling keep slices with their
+labels.
+-/
 import DimModel.Lib.Missing
+import DimModel.Proofs.Order
 namespace DimModel
+open Lib
+
+/-! ### helpers -/
+
+private theorem getD_set_self' {β : Type} (l : List β) (i : Nat) (x d : β) (h : i < l.length) :
+    (l.set i x).getD i d = x := by
+  rw [List.getD_eq_getElem?_getD, List.getElem?_set_self h]; rfl
+
+private theorem takeAxisPos_axis {α : Type} (a : DimArray α) (pos : Nat) (ps : List Nat)
+    (hpos : pos < a.axes.length) :
+    (takeAxisPos a pos ps).axes.getD pos default = axisTake (a.axes.getD pos default) ps := by
+  unfold takeAxisPos
+  simp only [List.getD_eq_getElem?_getD, List.getElem?_mapIdx, List.getElem?_eq_getElem hpos,
+    Option.map_some, Option.getD_some, beq_self_eq_true, if_true]
+
+/-- the labels read at the argsort positions are the sorted labels -/
+private theorem argsort_labels (L : List Label) :
+    (argsortBy Label.le L).map (fun p => L.getD p Label.none) = sortBy Label.le L := by
+  rw [argsortBy_eq, sortBy_eq, List.map_map]
+  apply List.map_congr_left
+  intro p hp
+  have := sortedPairs_mem Label.le hp
+  simp only [Function.comp, List.getD_eq_getElem?_getD, this, Option.getD_some]
+
+private theorem zipIdx_map_fst' {β : Type} (l : List β) (n : Nat) : (l.zipIdx n).map (·.1) = l := by
+  induction l generalizing n with
+  | nil => rfl
+  | cons x xs ih => simp only [List.zipIdx_cons, List.map_cons, ih]
+
+private theorem sortBy_perm {β : Type} (le : β → β → Bool) (l : List β) : (sortBy le l).Perm l := by
+  rw [sortBy_eq]
+  have := (sortedPairs_perm le l).map (·.1)
+  rwa [zipIdx_map_fst'] at this
+
+/-- selecting the `nonzero` positions of a mask (no longer than the labels) keeps the labels paired
+with `true` -/
+private theorem nonzero_select_aux (f : Nat → Label) (L : List Label) (mask : List Bool) (n : Nat)
+    (hlen : mask.length ≤ L.length) (hf : ∀ i (h : i < L.length), f (n + i) = L[i]) :
+    ((mask.zipIdx n).filter (·.1)).map (fun p => f p.2) =
+      (L.zip mask).filterMap (fun (l, m) => if m then some l else none) := by
+  induction mask generalizing L n with
+  | nil => simp
+  | cons m ms ih =>
+    cases L with
+    | nil => simp at hlen
+    | cons x xs =>
+      have hx : f n = x := hf 0 (Nat.zero_lt_succ _)
+      have ih' := ih xs (n + 1) (by simpa using hlen) (by
+        intro i h
+        have := hf (i + 1) (by simpa using h)
+        simpa [Nat.add_assoc, Nat.add_comm 1 i] using this)
+      cases m
+      · simp only [List.zipIdx_cons, List.zip_cons_cons, List.filterMap_cons]
+        rw [List.filter_cons_of_neg (by simp)]
+        simpa using ih'
+      · simp only [List.zipIdx_cons, List.zip_cons_cons, List.filterMap_cons]
+        rw [List.filter_cons_of_pos (by simp)]
+        simp only [List.map_cons, hx, if_true]
+        rw [ih']
+
+private theorem nonzero_select (L : List Label) (mask : List Bool) (hlen : mask.length ≤ L.length) :
+    (nonzero mask).map (fun p => L.getD p Label.none) =
+      (L.zip mask).filterMap (fun (l, m) => if m then some l else none) := by
+  unfold nonzero
+  rw [List.map_map]
+  exact nonzero_select_aux (fun p => L.getD p Label.none) L mask 0 hlen (by
+    intro i h
+    simp only [Nat.zero_add, List.getD_eq_getElem?_getD, List.getElem?_eq_getElem h, Option.getD_some])
+
+/-- positional take along an axis: the slice at result position `k` is the input slice at `ps[k]`,
+and its label is the input label at `ps[k]` - each slice moves together with its label -/
+theorem takeAxisPos_get {α : Type} (a : DimArray α) (pos : Nat) (ps : List Nat) (j : List Nat) :
+    (takeAxisPos a pos ps).vals.get j = a.vals.get (j.set pos (ps.getD (j.getD pos 0) 0)) := by
+  rfl
+
+theorem takeAxisPos_labels {α : Type} (a : DimArray α) (pos : Nat) (ps : List Nat) (hpos : pos < a.axes.length) :
+    ((takeAxisPos a pos ps).axes.getD pos default).labels =
+      ps.map (fun p => (a.axes.getD pos default).labels.getD p Label.none) := by
+  rw [takeAxisPos_axis a pos ps hpos]
+  rfl
+
+theorem takeAxisPos_other_axes {α : Type} (a : DimArray α) (pos : Nat) (ps : List Nat) (i : Nat) (hi : i ≠ pos) :
+    (takeAxisPos a pos ps).axes[i]? = a.axes[i]? ∧ (takeAxisPos a pos ps).attrs = a.attrs := by
+  refine ⟨?_, rfl⟩
+  unfold takeAxisPos
+  simp only [List.getElem?_mapIdx]
+  have : (i == pos) = false := by simpa using hi
+  cases h : a.axes[i]? with
+  | none => rfl
+  | some x => simp only [Option.map_some, this, Bool.false_eq_true, if_false]
+
+private theorem sortAxis_eq {α : Type} (a r : DimArray α) (k : DimKey) (pos : Nat)
+    (hpos : axisPos a.axes k = .ok pos) (h : sortAxis a k = .ok r) :
+    r = takeAxisPos a pos (argsortBy Label.le (a.axes.getD pos default).labels) := by
+  unfold sortAxis at h
+  rw [hpos] at h
+  simp only [bind, Except.bind, pure, Except.pure] at h
+  injection h with h
+  exact h.symm
+
+/-- `sort_axis`: the labels of the sorted axis are in ascending order ... -/
+theorem sortAxis_sorted {α : Type} (a r : DimArray α) (k : DimKey) (pos : Nat)
+    (hpos : axisPos a.axes k = .ok pos) (hlt : pos < a.axes.length)
+    (h : sortAxis a k = .ok r) :
+    ((r.axes.getD pos default).labels).Pairwise (fun x y => Label.le x y = true) := by
+  rw [sortAxis_eq a r k pos hpos h, takeAxisPos_labels a pos _ hlt, argsort_labels]
+  exact sortBy_pairwise Label.le Label.le_trans Label.le_total _
+
+/-- ... and are a permutation of the original labels (no label lost or duplicated) -/
+theorem sortAxis_perm {α : Type} (a r : DimArray α) (k : DimKey) (pos : Nat)
+    (hpos : axisPos a.axes k = .ok pos) (hlt : pos < a.axes.length)
+    (h : sortAxis a k = .ok r) :
+    ((r.axes.getD pos default).labels).Perm (a.axes.getD pos default).labels := by
+  rw [sortAxis_eq a r k pos hpos h, takeAxisPos_labels a pos _ hlt, argsort_labels]
+  exact sortBy_perm Label.le _
+
+/-- `compress_axis`: the kept labels are those selected by the mask, in their original order -/
+theorem compressAxis_labels {α : Type} (a r : DimArray α) (mask : List Bool) (k : DimKey) (pos : Nat)
+    (hpos : axisPos a.axes k = .ok pos) (hlt : pos < a.axes.length)
+    (hplain : (a.axes.getD pos default).members = [])
+    (h : compressAxis a mask k = .ok r) :
+    (r.axes.getD pos default).labels =
+      ((a.axes.getD pos default).labels.zip mask).filterMap (fun (l, m) => if m then some l else none) := by
+  unfold compressAxis at h
+  rw [hpos] at h
+  simp only [bind, Except.bind, pure, Except.pure] at h
+  split at h
+  · cases h
+  · rename_i hne
+    injection h with h
+    subst h
+    have hlen : mask.length = (a.axes.getD pos default).labels.length := by
+      have : mask.length = (a.axes.getD pos default).size := by simpa using hne
+      rw [this]
+      unfold Axis.size
+      simp only [hplain, List.isEmpty_nil, if_true]
+    simp only [getD_set_self' _ _ _ _ hlt, axisSelect]
+    exact nonzero_select _ _ (Nat.le_of_eq hlen)
+
+/-- `fillna` replaces exactly the NaN cells -/
+theorem fillna_spec {α : Type} (isnan : α → Bool) (a : DimArray α) (fill : α) (fk : Kind) (j : List Nat) :
+    (fillna isnan a fill fk).vals.get j = (if isnan (a.vals.get j) then fill else a.vals.get j) ∧
+    (fillna isnan a fill fk).axes = a.axes ∧ (fillna isnan a fill fk).attrs = a.attrs := by
+  exact ⟨rfl, rfl, rfl⟩
+
+/-- `setna` sets to NaN exactly the matching cells; integer data is promoted to float -/
+theorem setna_spec {α : Type} (hit : List Nat → Bool) (nan : α) (a : DimArray α) (j : List Nat) :
+    (setna hit nan a).vals.get j = (if hit j then nan else a.vals.get j) ∧
+    (setna hit nan a).axes = a.axes ∧ (setna hit nan a).attrs = a.attrs ∧
+    (a.vkind = .i → (setna hit nan a).vkind = .f) := by
+  refine ⟨rfl, rfl, rfl, ?_⟩
+  intro hk
+  show maybeCastKind a.vkind .f = .f
+  rw [hk]
+  rfl
+
+/-- `dropna` on an array of rank >= 2: the result is `compress_axis` with the mask "the slice at
+this label has at most (slice size - minvalid) NaNs" (default: no NaN), evaluated label by label in
+axis order -/
+theorem dropna_mask_spec {α : Type} (isnan : α → Bool) (a : DimArray α) (k : DimKey) (pos : Nat) (minvalid : Option Nat)
+    (hpos : axisPos a.axes k = .ok pos) (hrank : a.ndim ≠ 1) :
+    dropna isnan a k minvalid =
+      compressAxis a ((List.range (a.axes.getD pos default).size).map fun i =>
+        decide ((((allIdx (a.vals.shape.eraseIdx pos)).filter fun j => isnan (a.vals.get (j.insertIdx pos i))).length : Int)
+          ≤ (match minvalid with | none => (0 : Int) | some m => (prod (a.vals.shape.eraseIdx pos) : Int) - m))) (.pos pos) := by
+  unfold dropna
+  rw [hpos]
+  have hr : (a.ndim == 1) = false := by simpa using hrank
+  simp only [bind, Except.bind, hr, Bool.false_eq_true, if_false]
+  cases minvalid <;> rfl
+
 end DimModel
